@@ -654,6 +654,24 @@ func clAccessorAgreement(c *Ctx) {
 			c.Check(sg.globals["nodeHdrSize"] && sg.globals["nodeRefSize"], get, nil, name+" locates the reference by nodeHdrSize + nodeRefSize*level", "accessor "+name+" uses "+keys(sg.globals))
 		}
 		c.Check(g.atomics["LoadUint64"] && d.atomics["CompareAndSwapUint64"], get, nil, "tagged word is read and swapped with 64-bit atomics", "reader: "+keys(g.atomics)+"; CAS: "+keys(d.atomics))
+		// setNext (used on private nodes, which may be recycled blocks of a non-zeroing allocator) rewrites the whole
+		// reference: pointer AND flag word, so no stale delete mark survives
+		fFlag, fPtr := ref.Field(0), ref.Field(1)
+		wroteFlag, wrotePtr := false, false
+		for _, in := range p.Info(set).Instrs {
+			if st, ok := in.(*ssa.Store); ok {
+				switch f, _ := addrField(st.Addr); f {
+				case fFlag:
+					if isConstInt(0)(st.Val) {
+						wroteFlag = true
+					}
+				case fPtr:
+					wrotePtr = true
+				}
+			}
+		}
+		c.Check(wroteFlag && wrotePtr, set, nil, "setNext stores the pointer and clears the flag word of the reference",
+			"setNext leaves the flag word as it was: a node allocated from a recycled block (user allocator without zeroing) starts with the delete marks of the node freed there — it is inserted as already deleted and unlinked by the next search")
 		// GC write barrier no-op CAS targets the ptr field
 		c.Check(d.globals["nodeRefFlagSize"], cas, nil, "the pointer write-barrier CAS addresses NodeRef.ptr (ref + sizeof(flag))", "")
 	} else {
